@@ -268,11 +268,17 @@ fn gen_family(rng: &mut Rng, ex: &mut Exec, c: &GenCtx, fam: u64, out: &mut Vec<
             let rd = c.probe.crypto_read[c.space];
             let cb = c.probe.crypto_buffer_size as u64;
             let len = rng.below(40);
-            let off = match rng.below(5) {
+            let off = match rng.below(8) {
                 0 => V62 - 1 - len,
                 1 => near(rng, (rd + cb).saturating_sub(len)),
                 2 => rd,
                 3 => rd.saturating_sub(rng.below(20)),
+                4 | 5 | 6 => {
+                    // the buffer limit probed from one below to a frame's length above (C06): the frame's END lies at
+                    // limit-1, limit (both legal) or 1..len bytes beyond it while it STARTS inside the buffer
+                    let over = *rng.pick(&[-1i64, 0, 1, 1, 2, len as i64 / 2 + 1, (len as i64 - 1).max(1)]);
+                    ((rd + cb) as i64 + over - len as i64).max(rd as i64) as u64
+                }
                 _ => rd + rng.below(cb.max(1)),
             };
             push(enc(ex, &format!("crypto {off} {}", payload(rng, len as usize)), "crypto"));
@@ -387,8 +393,9 @@ pub const FAMILIES: u64 = 21;
 pub fn gen_injection(rng: &mut Rng, ex: &mut Exec, c: &GenCtx) -> Vec<InjFrame> {
     let mut out = Vec::new();
     let n = rng.range(1, 8);
-    for _ in 0..n {
-        let fam = rng.below(FAMILIES);
+    for k in 0..n {
+        // a quarter of the injections open with the CRYPTO family (its limit is probed by no other component)
+        let fam = if k == 0 && rng.chance(1, 4) { 12 } else { rng.below(FAMILIES) };
         gen_family(rng, ex, c, fam, &mut out);
     }
     // size cap (a packet has ~1100 bytes of room at the minimum MTU)
@@ -992,6 +999,38 @@ pub fn frames(seed: u64, out: &mut Outcome) {
                     sim.model_impl.push(observed.clone());
                 }
             }
+            // C06, from the property text / RFC 9000 7.5: handshake data beyond the configured CRYPTO buffer closes the
+            // connection with CRYPTO_BUFFER_EXCEEDED. Judged with the read offset AFTER the datagram (the most favourable
+            // one: earlier frames of the datagram can only have advanced it), and only when no error was raised at all.
+            let mut crypto_fails: Vec<String> = Vec::new();
+            // the FIRST frame of the datagram is judged exactly (nothing before it can have advanced the read offset or
+            // raised another error): a CRYPTO frame at an admissible level ending beyond the limit must produce
+            // CRYPTO_BUFFER_EXCEEDED, not be accepted and not be overtaken by the error of a later frame
+            if let Some((sp, f, _)) = seq.first() {
+                if !f.garbled && f.toks.first().map(|t| t.as_str()) == Some("crypto") && f.toks.len() >= 3 && !became_established {
+                    if let Ok(off) = f.toks[1].parse::<u64>() {
+                        let plen = if f.toks[2] == "-" { 0 } else { f.toks[2].len() as u64 / 2 };
+                        let end = off.saturating_add(plen);
+                        let limit = pbefore.crypto_read[*sp].saturating_add(pbefore.crypto_buffer_size as u64);
+                        if end > limit && end < (1 << 62) && *sp >= pbefore.crypto_expected && new_error != Some(0x0d) {
+                            crypto_fails.push(format!("victim node {node}: first frame of the datagram is CRYPTO [{off}, {end}) in space {sp}, ending {} bytes beyond read offset {} + crypto_buffer_size {}: expected CRYPTO_BUFFER_EXCEEDED (0xd), observed {observed}", end - limit, pbefore.crypto_read[*sp], pbefore.crypto_buffer_size));
+                        }
+                    }
+                }
+            }
+            if new_error.is_none() && pafter.error.is_none() {
+                for (sp, f, _) in seq.iter() {
+                    if f.garbled || f.toks.first().map(|t| t.as_str()) != Some("crypto") || f.toks.len() < 3 {
+                        continue;
+                    }
+                    let (Ok(off), plen) = (f.toks[1].parse::<u64>(), if f.toks[2] == "-" { 0 } else { f.toks[2].len() as u64 / 2 }) else { continue };
+                    let end = off.saturating_add(plen);
+                    let limit = pafter.crypto_read[*sp].saturating_add(pafter.crypto_buffer_size as u64);
+                    if end > limit && *sp >= pafter.crypto_expected.min(pbefore.crypto_expected) {
+                        crypto_fails.push(format!("victim node {node}: CRYPTO frame [{off}, {end}) in space {sp} accepted although it ends {} bytes beyond read offset {} + crypto_buffer_size {} (no CRYPTO_BUFFER_EXCEEDED, connection stays open)", end - limit, pafter.crypto_read[*sp], pafter.crypto_buffer_size));
+                    }
+                }
+            }
             let nframes = seq.len() as u64;
             let labels: Vec<&'static str> = seq.iter().map(|x| x.1.label).collect();
             let model_line_tail: Vec<String> = seq.iter().map(|x| if x.1.toks.is_empty() { format!("raw:{}", hex(&x.1.bytes)) } else { x.1.toks.join(" ").chars().take(100).collect() }).take(12).collect();
@@ -1015,6 +1054,9 @@ pub fn frames(seed: u64, out: &mut Outcome) {
             let lim = s.lim;
             let live_recv = st.recv_state.len() as u64;
             let srw = conn.verif_stream_probe(0).stream_receive_window;
+            for f in crypto_fails {
+                sim.fail("crypto-buffer-limit-not-enforced", f);
+            }
             let unique = (srw.saturating_mul(live_recv)).min(st.receive_window);
             let cb = pafter.crypto_buffer_size as u64;
             let dl = len as u64;
